@@ -26,8 +26,8 @@ class B:
         self.inputs[n] = w
         return n
 
-    def decl(self, ref, iw=0, ow=0, owner=0, group=None):
-        self.methods.append({"ref": ref, "iw": iw, "ow": ow, "owner": owner, "group": group})
+    def decl(self, ref, iw=0, ow=0, owner=0, group=None, fields=None):
+        self.methods.append({"ref": ref, "iw": iw, "ow": ow, "owner": owner, "group": group, **({"fields": fields} if fields else {})})
         return ref
 
     def meth(self, ref, block=(), ready=True, nx=0, comb=None, sc=0, val=None, out=None, sugar=0):
@@ -43,7 +43,7 @@ class B:
     def trans(self, name, block=(), ready=True):
         return {"k": "trans", "name": name, "ready": self.i(1, "r") if ready else None, "block": list(block)}
 
-    def call(self, ref, en=None, kw=0, via_group=0, const=None):
+    def call(self, ref, en=None, kw=0, via_group=0, const=None, argform="dict"):
         """en: None (no enable) | True (fresh input) | ("C"|"int"|"bool", 0|1) constant"""
         d = next(m for m in self.methods if m["ref"] == ref)
         arg = None
@@ -56,7 +56,7 @@ class B:
             enable = self.i(1, "e")
         elif isinstance(en, tuple):
             enable = {"const": en[1], "form": en[0]}
-        return {"k": "call", "site": s, "ref": ref, "enable": enable, "arg": arg, "kw": kw, "via_group": via_group}
+        return {"k": "call", "site": s, "ref": ref, "enable": enable, "arg": arg, "kw": kw, "via_group": via_group, "argform": argform}
 
     def If(self, *blocks, els=False):  # noqa: N802
         u = self.nu
@@ -129,6 +129,9 @@ def _all() -> list[tuple[str, tuple, dict]]:
     b = B(); b.decl("a"); b.decl("bb")
     add("same_trans_conflict_mixed", ["C02", "C11"], b.design([[b.meth("a", ready=False), b.meth("bb", ready=False),
         b.trans("t0", [b.If([b.call("a"), b.call("bb")], [b.call("a")], els=True)])]], [conflict("a", "bb")]))
+    b = B(); b.decl("a"); b.decl("bb")
+    add("same_trans_conflict_mixed_prio", ["C08", "C02", "C11"], b.design([[b.meth("a", ready=False), b.meth("bb", ready=False),
+        b.trans("t0", [b.If([b.call("a")], [b.call("a"), b.call("bb")], els=True)])]], [conflict("a", "bb", "L")]))
     # ---- same-transaction conflict on exclusive paths, other callers of the end defined later (C02-2, C08-1)
     for nx, prio, nm in ((1, "U", "nonexclusive_end"), (0, "R", "prio_right"), (0, "L", "prio_left_extra")):
         b = B(); b.decl("a"); b.decl("bb")
@@ -260,6 +263,26 @@ def _all() -> list[tuple[str, tuple, dict]]:
             blk.append(b.meth("entry", ready=False))
         blk += [b.meth("x", ready=False), b.trans("t0", [b.call("x")])]
         add(f"uncalled_cycle_{n}{'_entry' if entry else ''}", ["C11"], b.design([blk]))
+    # ---- multi-field input layout, argument passed as a positional View with the same field names declared in
+    #      the opposite order, next to dict / kwargs / own-layout views (C05-8)
+    for fields in ([1, 2], [2, 1], [1, 1]):
+        iw = sum(fields)
+        b = B(); b.decl("m", iw, 0, fields=fields); b.decl("al", iw, 0, owner=None, fields=fields)
+        add(f"view_argument_permuted_{fields[0]}{fields[1]}", ["C05", "C04"], b.design([[b.meth("m", ready=False), {"k": "provide", "ref": "al", "target": "m"},
+            b.trans("t0", [b.If([b.call("m", argform="view")], [b.call("al", argform="view", en=True)], els=True)])]]))
+    b = B(); b.decl("m", 3, 0, fields=[1, 2])
+    add("view_argument_forms", ["C05"], b.design([[b.meth("m", ready=False),
+        b.trans("t0", [b.Fsm([b.call("m", argform="view")], [b.call("m", argform="view_same", const=5)], [b.call("m", argform="dict", const=6)],
+                             [b.call("m", argform="kw", const=3)])])]]))
+    # ---- prioritised conflicts declared ON a provide()-alias (receiver) and with an alias as the argument (C08-7)
+    for prio in ("L", "R"):
+        for recv in (1, 0):
+            b = B(); b.decl("x"); b.decl("y"); b.decl("al", owner=None); b.decl("bl", owner=None)
+            rel = [conflict("al", "y", prio)] if recv else [conflict("y", "al", prio)]
+            rel.append(conflict("bl", "t3", prio) if recv else conflict("t3", "bl", prio))
+            add(f"alias_priority_{'receiver' if recv else 'argument'}_{prio}", ["C08", "C02"], b.design([[
+                b.meth("x", ready=False), b.meth("y", ready=False), {"k": "provide", "ref": "al", "target": "x"}, {"k": "provide", "ref": "bl", "target": "y"},
+                b.trans("t0", [b.call("al")]), b.trans("t1", [b.call("y")]), b.trans("t2", [b.call("x", en=True)]), b.trans("t3")]], rel))
     return out
 
 
